@@ -10,8 +10,12 @@
 #  (3) byte level: utf-8 / latin-1 samples through a raw io.RawIOBase with short readinto, all partitions.
 # Field splitting belongs to another area (Csv.v): for quoted policies the model's split function is a finite table
 # (line -> fields, warning) obtained from csv_utils.smart_split for exactly the logical rows the MODEL asks for.
+import importlib
 import itertools
+import os
+import sys
 import lib
+c12tl = importlib.import_module('props.c12tl')
 
 ALPHA = 'a",\n\r# '
 THEOREM = 'C12_records / C12_lines / C12_rfc_balance (Props/C12.v): run_py cfg cs pieces = records_of_text cfg (concat pieces)'
@@ -210,6 +214,9 @@ def gen_byte_cases(ctx):
 
 def run(ctx):
     ctx.exhaustive = True
+    if os.environ.get('VERIF_C12_PART') == 'tl':       # debugging aid: only the text-layer part (4)
+        ctx.rule = 'text-layer part only (VERIF_C12_PART=tl)'
+        return c12tl.run(ctx, sys.modules[__name__])
     lens = ('4', '5') if ctx.tier == 'quick' else ('6', '7')
     ctx.rule = ('every text over {a " , LF CR # space} up to length %s (all of them) and a sample of length %s, each on ALL 2^(n-1) partitions x chunk sizes '
                 '{1,2,n+1} x policies {simple, quoted, quoted_rfc, monocolumn%s} x comment prefix {None,#} x header {F,T}; token texts with WITH-modifiers and '
@@ -338,6 +345,9 @@ def run(ctx):
     # the rbql-js stream reader under the same statement (mixed line endings, all chunkings)
     __import__('importlib').import_module('props.c12js').run(ctx, THEOREM)
 
+    # (4) the text-layer model (TextLayer.v) against CPython's decoder objects, io.TextIOWrapper and the reader over bytes
+    c12tl.run(ctx, sys.modules[__name__])
+
 
 def single_table(c, text):
     """split table for one case, asking the implementation's smart_split"""
@@ -354,6 +364,8 @@ def single_table(c, text):
 def replay(ctx, case):
     if case.get('part') == 'c12js' or case.get('mode') in ('from', 'push') or 'modes' in case:
         return __import__('importlib').import_module('props.c12js').replay(ctx, case)
+    if case.get('part') == 'tl':
+        return c12tl.replay(ctx, case, sys.modules[__name__])
     kind = case.get('kind')
     if kind in ('all', 'bytes_all'):
         exp, args, model, have, _ = expected_for([case], ctx)
